@@ -103,44 +103,76 @@ def run(model, col, tier):
     col.check(one and many and not wrong41, "R04.1",
               f"{CT}::ComputeSwizzleType", "one letter -> component type, n letters -> vector of n components", "the swizzle's type is not (component type | vector of len(mask))", CT, cst)
     # ---------------- R04.2 ------------------------------------------------------
+    # all comparisons are made on expressions with the handler's single-assignment locals inlined, so that the rule does not
+    # depend on what the locals are called; VAL is "the lowered parent", MASK "the member's name"
+    from ..sem import local_env as _le42, rtext as _rt42
+
+    np42, cx42 = vma.args.args[1].arg, vma.args.args[2].arg
+    self42 = vma.args.args[0].arg
+    env42 = _le42(vma, allow_impure=True)
+    VAL = f"{self42}.v_Visit({np42}.GetParent(), {cx42})"
+    MASK = f"{np42}.GetMember().GetName()"
+
+    def _is_table(e):
+        r_ = e
+        if isinstance(e, ast.Name) and e.id in env42:
+            r_ = env42[e.id]
+        return isinstance(r_, ast.Dict) and any(isinstance(k, ast.Constant) and k.value == "x" for k in r_.keys)
+
     nread = nwrite = 0
     for evs, status in paths(vma.body):
         if status != "return":
             continue
         atoms = cond_atoms(evs)
-        if atoms.get("expr.isSwizzle") is not True:
+        if atoms.get(f"{np42}.isSwizzle") is not True:
             continue
         sh = [c for c in calls_on_path(evs) if last_attr(c) == "ShuffleInstruction"]
         if not sh:
             continue
         c = sh[0]
-        args = [unparse(a) for a in c.args]
-        if atoms.get("ctx.InAssignment") is False:
+        args = [_rt42(a, env42) for a in c.args]
+        idxn = unparse(c.args[3]) if len(c.args) == 4 else None
+        loops = [e.node for e in evs if e.kind == "loop" and e.val == 1 and isinstance(e.node, ast.For)]
+        if atoms.get(f"{cx42}.InAssignment") is False:
             nread += 1
-            loops = [e.node for e in evs if e.kind == "loop" and e.val == 1 and isinstance(e.node, ast.For)]
-            in_order = any(unparse(l.iter) == "member.GetName()" and any("indices.append(swizzleComponentToIndex[" in unparse(s) for s in l.body) for l in loops)
-            col.check(len(args) == 4 and args[1] == args[2] == "value" and args[3] == "indices" and "expr.GetType()" in args[0], "R04.2", f"{LOWER}::v_MemberAccessExpression swizzle read operands",
+            in_order = False
+            for l in loops:
+                if _rt42(l.iter, env42) != MASK:
+                    continue
+                lv_ = unparse(l.target)
+                for s_ in l.body:
+                    for x in ast.walk(s_):
+                        if isinstance(x, ast.Call) and last_attr(x) == "append" and unparse(x.func.value) == idxn and x.args and isinstance(x.args[0], ast.Subscript) \
+                                and _is_table(x.args[0].value) and unparse(x.args[0].slice) == lv_:
+                            in_order = True
+            col.check(len(args) == 4 and args[1] == args[2] == VAL and f"{np42}.GetType()" in args[0], "R04.2", f"{LOWER}::v_MemberAccessExpression swizzle read operands",
                       "ShuffleInstruction(type of the swizzle, value, value, indices)", f"read shuffle is built as {args}", LOWER, c)
             col.check(in_order or any(e.kind == "loop" and e.val == 0 for e in evs), "R04.2", f"{LOWER}::v_MemberAccessExpression swizzle read indices",
                       "indices are the mask letters' component numbers in mask order", "read indices are not the mask's letters in order", LOWER, vma)
-        elif atoms.get("ctx.InAssignment") is True:
+        elif atoms.get(f"{cx42}.InAssignment") is True:
             nwrite += 1
-            good = len(args) == 4 and args[1] == "value" and args[2] == "ctx.AssignmentValue" and args[3] == "indices"
+            good = len(args) == 4 and args[1] == VAL and args[2] == f"{cx42}.AssignmentValue"
             col.check(good, "R04.2", f"{LOWER}::v_MemberAccessExpression swizzle write operands", "ShuffleInstruction(.., old value, assigned value, indices)",
                       f"write shuffle is built as {args}; expected (old value, assigned value, indices)", LOWER, c)
-            col.check(args[0] == "value.Type", "R04.2", f"{LOWER}::v_MemberAccessExpression swizzle write type", "the shuffle produces a value of the whole vector's type",
+            col.check(args[0] == f"{VAL}.Type", "R04.2", f"{LOWER}::v_MemberAccessExpression swizzle write type", "the shuffle produces a value of the whole vector's type",
                       f"the write shuffle is typed `{args[0]}`; it produces the complete vector (old value with components replaced), so its type is the vector's", LOWER, c)
-            lcc = find_assign(vma, "leftComponentCount")
-            ind = [v for v in find_assign(vma, "indices") if "range" in unparse(v)]
-            col.check(bool(lcc) and unparse(lcc[0]) == "value.Type.Size" and bool(ind) and unparse(ind[0]) == "list(range(leftComponentCount))", "R04.2",
+            ind = [_rt42(v, env42) for e in evs if e.kind == "stmt" and isinstance(e.node, ast.Assign) and unparse(e.node.targets[0]) == idxn for v in [e.node.value]]
+            col.check(ind == [f"list(range({VAL}.Type.Size))"], "R04.2",
                       f"{LOWER}::v_MemberAccessExpression swizzle write identity", "indices start as the identity over the old value's size",
-                      "the write shuffle's base indices are not the identity over the size of the first operand", LOWER, vma)
-            loops = [e.node for e in evs if e.kind == "loop" and e.val == 1 and isinstance(e.node, ast.For)]
+                      f"the write shuffle's base indices are {ind}, not the identity over the size of the first operand", LOWER, vma)
             ok_loop = False
             for l in loops:
-                b = " ".join(unparse(ast.Module(body=l.body, type_ignores=[])).split())
-                if unparse(l.iter) == "enumerate(member.GetName())" and "writeIndex = swizzleComponentToIndex[c]" in b and "readIndex = leftComponentCount + i" in b and "indices[writeIndex] = readIndex" in b:
-                    ok_loop = True
+                if _rt42(l.iter, env42) != f"enumerate({MASK})" or not (isinstance(l.target, ast.Tuple) and len(l.target.elts) == 2):
+                    continue
+                i_, c_ = (unparse(e_) for e_ in l.target.elts)
+                for s_ in l.body:
+                    if isinstance(s_, ast.Assign) and isinstance(s_.targets[0], ast.Subscript) and unparse(s_.targets[0].value) == idxn:
+                        w_ = s_.targets[0].slice
+                        if isinstance(w_, ast.Name) and w_.id in env42:
+                            w_ = env42[w_.id]
+                        r_ = _rt42(s_.value, env42)
+                        if isinstance(w_, ast.Subscript) and _is_table(w_.value) and unparse(w_.slice) == c_ and r_ in (f"{VAL}.Type.Size + {i_}", f"{i_} + {VAL}.Type.Size"):
+                            ok_loop = True
             if loops:
                 col.check(ok_loop, "R04.2", f"{LOWER}::v_MemberAccessExpression swizzle write mapping", "component i of the mask takes element size(old) + i of the concatenation",
                           "mask component i is not mapped to size(first operand) + i", LOWER, vma)
@@ -149,7 +181,8 @@ def run(model, col, tier):
             col.check(tail == ["BeginAssignment", "v_Visit", "EndAssignment"], "R04.2", f"{LOWER}::v_MemberAccessExpression swizzle write-back",
                       "the shuffled vector is stored back through the parent (BeginAssignment(si); visit parent; EndAssignment)", f"write-back sequence is {tail}", LOWER, vma)
             ba = [x for x in calls_on_path(evs) if last_attr(x) == "BeginAssignment"]
-            col.check(bool(ba) and unparse(ba[0].args[0]) == "si", "R04.2", f"{LOWER}::v_MemberAccessExpression swizzle write-back value", "what is stored back is the shuffle result", None, LOWER, vma)
+            shn = next((unparse(e.node.targets[0]) for e in evs if e.kind == "stmt" and isinstance(e.node, ast.Assign) and e.node.value is c), None)
+            col.check(bool(ba) and ba[0].args and unparse(ba[0].args[0]) == shn, "R04.2", f"{LOWER}::v_MemberAccessExpression swizzle write-back value", "what is stored back is the shuffle result", None, LOWER, vma)
     col.floor("R04.2", "swizzle read paths", nread, 1)
     col.floor("R04.2", "swizzle write paths", nwrite, 1)
     sh = vm.arm("SHUFFLE")
@@ -160,14 +193,14 @@ def run(model, col, tier):
     va = lv.own_method("v_ArrayExpression")
     for kind, cls_ in (("isVector", "VectorAccessInstruction"), ("isMatrix", "MatrixAccessInstruction")):
         seen = False
+        cx43 = va.args.args[2].arg
         for evs, status in paths(va.body):
             atoms = cond_atoms(evs)
-            if status != "return" or atoms.get(kind) is not True or atoms.get("ctx.InAssignment") is not True:
-                continue
-            if kind == "isMatrix" and atoms.get("isVector") is not False:
+            cs = calls_on_path(evs)
+            # the write path of this kind: the one that builds this kind's access instruction while an assignment is in progress
+            if status != "return" or atoms.get(f"{cx43}.InAssignment") is not True or not any(last_attr(c) == cls_ for c in cs):
                 continue
             seen = True
-            cs = calls_on_path(evs)
             names = [last_attr(c) for c in cs if last_attr(c) in (cls_, "AddInstruction", "SetStore", "BeginAssignment", "v_Visit", "EndAssignment")]
             want = [cls_, "AddInstruction", "SetStore", "BeginAssignment", "v_Visit", "EndAssignment"]
             names_ = [n for n in names if not (n == "v_Visit" and names.index(n) < names.index(cls_))] if cls_ in names else names
@@ -177,7 +210,8 @@ def run(model, col, tier):
             ss = [c for c in cs if last_attr(c) == "SetStore"]
             ba = [c for c in cs if last_attr(c) == "BeginAssignment"]
             vv = [c for c in cs if last_attr(c) == "v_Visit"]
-            col.check(bool(ss) and unparse(ss[0].args[0]) == "ctx.AssignmentValue" and bool(ba) and unparse(ba[0].args[0]) == "cai" and "GetParent" in unparse(vv[-1].args[0]), "R04.3",
+            acc43 = next((unparse(e.node.targets[0]) for e in evs if e.kind == "stmt" and isinstance(e.node, ast.Assign) and isinstance(e.node.value, ast.Call) and last_attr(e.node.value) == cls_), None)
+            col.check(bool(ss) and unparse(ss[0].args[0]) == f"{cx43}.AssignmentValue" and unparse(ss[0].func.value) == acc43 and bool(ba) and unparse(ba[0].args[0]) == acc43 and "GetParent" in unparse(vv[-1].args[0]), "R04.3",
                       f"{LOWER}::v_ArrayExpression {cls_[:-17].lower()} write roles", "store = assigned value; stored back = the access instruction; destination = the parent expression", None, LOWER, va)
         col.check(seen, "R04.3", f"{LOWER}::v_ArrayExpression has a {cls_[:-17].lower()} write path", "present", f"no write path for {cls_}", LOWER, va)
     from ..report import Collector
